@@ -17,6 +17,8 @@ import (
 	"os"
 	"path/filepath"
 	"runtime"
+	"runtime/debug"
+	"runtime/metrics"
 	"sort"
 	"strconv"
 	"strings"
@@ -51,6 +53,7 @@ type batch struct {
 	st, fn int
 	lo, hi int
 	dirty  bool
+	sv     bool // lo..hi index the structured-input variants of (state, function) instead of the integer tuples
 }
 
 func (b batch) callsPerTuple() int {
@@ -63,6 +66,7 @@ func (b batch) callsPerTuple() int {
 type plan struct {
 	tp      tierPlan
 	tup     [][][]uint8 // per function
+	sv      [nStates][][]variant // per state, per function: structured in-memory inputs
 	batches []batch
 }
 
@@ -70,6 +74,9 @@ func buildPlan(tier string) *plan {
 	pl := &plan{tp: planFor(tier)}
 	for _, f := range fnTable {
 		pl.tup = append(pl.tup, tuples(f, pl.tp.maxFull, pl.tp.maxDev))
+		for st := 0; st < nStates; st++ {
+			pl.sv[st] = append(pl.sv[st], structVariants(f, st))
+		}
 	}
 	for _, e := range pl.tp.engines {
 		for _, st := range e.states {
@@ -84,7 +91,15 @@ func buildPlan(tier string) *plan {
 					if hi > n {
 						hi = n
 					}
-					pl.batches = append(pl.batches, batch{e.name, st, fi, lo, hi, dirty})
+					pl.batches = append(pl.batches, batch{e.name, st, fi, lo, hi, dirty, false})
+				}
+				n = len(pl.sv[st][fi])
+				for lo := 0; lo < n; lo += batchSize {
+					hi := lo + batchSize
+					if hi > n {
+						hi = n
+					}
+					pl.batches = append(pl.batches, batch{e.name, st, fi, lo, hi, dirty, true})
 				}
 			}
 		}
@@ -94,6 +109,11 @@ func buildPlan(tier string) *plan {
 
 func (pl *plan) caseOf(b batch, k int) caseID {
 	f := fnTable[b.fn]
+	if b.sv {
+		v := pl.sv[b.st][b.fn][k]
+		args, mem := structCase(f, v, b.st)
+		return caseID{Engine: b.eng, Fn: f.name, State: stateName[b.st], Args: args, Mem: mem, Variant: v.name}
+	}
 	return caseID{Engine: b.eng, Fn: f.name, State: stateName[b.st], Args: argsOf(f, pl.tup[b.fn][k], b.st)}
 }
 
@@ -122,6 +142,7 @@ type batchRes struct {
 	Fx         []string         `json:"fx,omitempty"` // per tuple: engine- and worker-independent effect of the clean call
 	DirtyCalls int64            `json:"dc,omitempty"`
 	DirtySame  int64            `json:"ds,omitempty"`
+	Mapped     uint64           `json:"mapped,omitempty"` // bytes the worker has mapped from the OS after this batch (diagnostic)
 }
 
 type sampleRec struct {
@@ -220,6 +241,13 @@ func (br *batchRes) add(c caseID, r caseRes) {
 // ---------------------------------------------------------------- child
 
 func childMain() {
+	// A worker produces about 0.5 MiB of garbage per case. With 16 workers x 16 Ps on a loaded machine the
+	// concurrent collector can fall far behind a single allocating goroutine and the heap (hence the
+	// address space, which `ulimit -v` counts even after it is released) was seen to peak at 3.6 GiB and
+	// once to exhaust the 6 GiB limit in a harmless poll_oneoff batch. A soft memory limit makes the
+	// collector keep up; few Ps keep 16 workers from oversubscribing the machine.
+	debug.SetMemoryLimit(768 << 20)
+	runtime.GOMAXPROCS(4)
 	base := os.Getenv("VERIF_C15_BASE")
 	if base == "" {
 		fw.Fatalf("child without VERIF_C15_BASE")
@@ -235,6 +263,16 @@ func childMain() {
 	enc := func(br *batchRes) string {
 		br.Rebuilds = w.rebuilds
 		w.rebuilds = 0
+		ms := []metrics.Sample{{Name: "/memory/classes/total:bytes"}}
+		metrics.Read(ms)
+		br.Mapped = ms[0].Value.Uint64()
+		if tp := os.Getenv("VERIF_C15_TRACE"); tp != "" {
+			m2 := []metrics.Sample{{Name: "/memory/classes/heap/objects:bytes"}, {Name: "/memory/classes/heap/free:bytes"}, {Name: "/memory/classes/heap/released:bytes"}, {Name: "/memory/classes/heap/unused:bytes"}, {Name: "/memory/classes/os-stacks:bytes"}, {Name: "/memory/classes/heap/stacks:bytes"}, {Name: "/memory/classes/other:bytes"}, {Name: "/gc/cycles/total:gc-cycles"}}
+			metrics.Read(m2)
+			tf, _ := os.OpenFile(tp, os.O_APPEND|os.O_CREATE|os.O_WRONLY, 0o644)
+			fmt.Fprintf(tf, "W pid=%d total=%d objects=%d free=%d released=%d unused=%d osstk=%d stk=%d other=%d gc=%d\n", os.Getpid(), br.Mapped>>20, m2[0].Value.Uint64()>>20, m2[1].Value.Uint64()>>20, m2[2].Value.Uint64()>>20, m2[3].Value.Uint64()>>20, m2[4].Value.Uint64()>>20, m2[5].Value.Uint64()>>20, m2[6].Value.Uint64()>>20, m2[7].Value.Uint64())
+			tf.Close()
+		}
 		b, _ := json.Marshal(br)
 		return string(b)
 	}
@@ -247,8 +285,24 @@ func childMain() {
 			if expired() {
 				return `{"skipped":true}`
 			}
+			trace := os.Getenv("VERIF_C15_TRACE") != ""
+			ms := []metrics.Sample{{Name: "/memory/classes/total:bytes"}}
 			for k := b.lo; k < b.hi; k++ {
-				br.runTuple(w, pl.caseOf(b, k), b.dirty)
+				var before uint64
+				if trace {
+					metrics.Read(ms)
+					before = ms[0].Value.Uint64()
+				}
+				c := pl.caseOf(b, k)
+				br.runTuple(w, c, b.dirty)
+				if trace {
+					metrics.Read(ms)
+					if d := ms[0].Value.Uint64() - before; d > 32<<20 && ms[0].Value.Uint64() > before {
+						tf, _ := os.OpenFile(os.Getenv("VERIF_C15_TRACE"), os.O_APPEND|os.O_CREATE|os.O_WRONLY, 0o644)
+						fmt.Fprintf(tf, "JUMP +%d MiB (now %d MiB) at %s%v %s %s %s\n", d>>20, ms[0].Value.Uint64()>>20, c.Fn, c.Args, c.State, c.Engine, c.Variant)
+						tf.Close()
+					}
+				}
 			}
 			return enc(br)
 		})
@@ -337,6 +391,7 @@ type agg struct {
 	crashCases int64
 	dirtyCalls int64
 	dirtySame  int64
+	maxMapped  uint64
 	fxID       map[string]uint32
 	fxStr      []string
 	fx         map[int][]uint32 // batch index -> per-tuple effect id (0 = missing)
@@ -368,7 +423,11 @@ func newAgg(run *fw.Run) *agg {
 
 func (a *agg) violation(v viol, c caseID, count int64) {
 	for k := int64(0); k < count; k++ {
-		a.run.Violation(v.Sig, fmt.Sprintf("%s%v in state %s on the %s: %s", c.Fn, fmtArgs(c.Args), c.State, c.Engine, v.What), c)
+		mem := ""
+		if c.Variant != "" {
+			mem = " with " + c.Variant + " in guest memory"
+		}
+		a.run.Violation(v.Sig, fmt.Sprintf("%s%v%s in state %s on the %s: %s", c.Fn, fmtArgs(c.Args), mem, c.State, c.Engine, v.What), c)
 	}
 }
 
@@ -391,6 +450,12 @@ func (a *agg) merge(idx int, slice string, br *batchRes) {
 		a.perSlice[slice+"/dirty-stack"] += br.DirtyCalls
 	}
 	a.dirtyCalls += br.DirtyCalls
+	if br.Mapped > a.maxMapped {
+		a.maxMapped = br.Mapped
+	}
+	if idx >= 0 && os.Getenv("VERIF_C15_TRACE") != "" {
+		fmt.Fprintf(os.Stderr, "batch %d %s mapped %d MiB\n", idx, slice, br.Mapped>>20)
+	}
 	a.dirtySame += br.DirtySame
 	a.nontriv += br.Nontriv
 	a.memChanged += br.MemChanged
@@ -432,7 +497,7 @@ func main() {
 			n += int64(b.hi-b.lo) * int64(b.callsPerTuple())
 		}
 		for fi, f := range fnTable {
-			fmt.Printf("%-26s params=%d tuples/state=%d\n", f.name, len(f.params), len(pl.tup[fi]))
+			fmt.Printf("%-26s params=%d tuples/state=%d structured-inputs/state=%d\n", f.name, len(f.params), len(pl.tup[fi]), len(pl.sv[stOpens][fi]))
 		}
 		fmt.Printf("tier=%s batches=%d calls=%d\n", os.Args[2], len(pl.batches), n)
 		return
@@ -469,11 +534,14 @@ func main() {
 
 	// phase A: batches
 	var crashed []int
+	var deaths []string
 	t0 := time.Now()
 	doneA := fw.Supervise(fw.SupOpts{N: len(pl.batches), Workers: workers, CaseTimeout: 120 * time.Second, UlimitVKB: 6 << 20, Env: env, Mode: "batch", Stop: stop},
 		func(i int, res string, crash *fw.Crash) {
 			if crash != nil {
 				crashed = append(crashed, i)
+				b := pl.batches[i]
+				deaths = append(deaths, fmt.Sprintf("batch %d (%s %s %s sv=%v %d..%d): %s: %s", i, b.eng, stateName[b.st], fnTable[b.fn].name, b.sv, b.lo, b.hi, crash.Kind, fw.FirstLines(crash.Stderr, 3)))
 				return
 			}
 			var br batchRes
@@ -562,10 +630,16 @@ func main() {
 	// ---- engines must agree: the clean call of every tuple the compiler ran has the effect the
 	// interpreter observed for the same tuple in the same state (a dirty-stack call equals its clean
 	// call, checked in the worker, so it equals the interpreter's too).
-	twin := map[[3]int]int{}
+	b2i := func(v bool) int {
+		if v {
+			return 1
+		}
+		return 0
+	}
+	twin := map[[4]int]int{}
 	for i, b := range pl.batches {
 		if b.eng == "interpreter" {
-			twin[[3]int{b.st, b.fn, b.lo}] = i
+			twin[[4]int{b.st, b.fn, b.lo, b2i(b.sv)}] = i
 		}
 	}
 	var xCompared, xDiffer, xMissing int64
@@ -573,7 +647,7 @@ func main() {
 		if b.eng != "compiler" {
 			continue
 		}
-		ti, ok := twin[[3]int{b.st, b.fn, b.lo}]
+		ti, ok := twin[[4]int{b.st, b.fn, b.lo, b2i(b.sv)}]
 		cf, tf := a.fx[i], a.fx[ti]
 		for k := 0; k < b.hi-b.lo; k++ {
 			if !ok || cf == nil || tf == nil || cf[k] == 0 || tf[k] == 0 {
@@ -635,7 +709,7 @@ func main() {
 		if len(f.params) > pl.tp.maxFull {
 			mode = fmt.Sprintf("<=%d-deviations", pl.tp.maxDev)
 		}
-		perFn[f.name] = map[string]any{"params": len(f.params), "tuples_per_state": len(pl.tup[fi]), "enumeration": mode, "calls": n, "outcomes": m}
+		perFn[f.name] = map[string]any{"params": len(f.params), "tuples_per_state": len(pl.tup[fi]), "structured_inputs_per_state": len(pl.sv[stOpens][fi]), "enumeration": mode, "calls": n, "outcomes": m}
 	}
 	var sidx []int
 	for i := range a.samples {
@@ -685,7 +759,7 @@ func main() {
 			"per_function": perFn, "calls_per_engine_state": a.perSlice, "calls_that_changed_guest_memory": a.memChanged,
 			"lowest_free_followup_checked": a.lowfree, "host_dir_rebuilds": a.rebuilds,
 			"max_host_alloc_bytes_in_surviving_call": a.maxAlloc, "max_host_alloc_case": a.maxCase,
-			"batches": len(pl.batches), "cases_skipped_after_budget": skipped, "batches_whose_worker_died": len(crashed), "calls_rerun_one_per_process_slot": len(singles),
+			"worker_deaths_in_batch_phase": deaths, "max_worker_mapped_mib_approx": a.maxMapped >> 20, "batches": len(pl.batches), "cases_skipped_after_budget": skipped, "batches_whose_worker_died": len(crashed), "calls_rerun_one_per_process_slot": len(singles),
 			"calls_that_killed_the_worker": a.crashCases, "phase_wall_s": map[string]float64{"batches": wallA, "singles": wallB},
 			"dirty_stack": map[string]any{
 				"patterns": pats, "dirtier_levels": dirtDepth + 1, "forwarding_functions": 2,
